@@ -419,6 +419,13 @@ def sweep_cases(bdir):
                 opnd = [0x02] if r[0] == "eRelative" else [0x10, 0x05][:nops]
                 img = bytes([op] + opnd + [0x39] * (7 - nops))
             out.append(dict(cpu=cpu, asmcpu=asmcpu, op=op, start=start, img=img, memo=bytes.fromhex(r[3]).decode()))
+            if cpu == "4004" and r[0] in ("eJumpCond", "eISZ") and (op & 15) in (0, 1, 4, 7, 12):
+                # the page-relative forms in the last two words of a ROM page: the target page is that of the following
+                # instruction, i.e. the next page; operand 3 = a BBL of the image in that page
+                for ofs in (0xfd, 0xfe, 0xff):
+                    st = ((op & 7) << 8) + ofs
+                    out.append(dict(cpu=cpu, asmcpu=asmcpu, op=op, start=st, img=bytes([op, 0xff if ofs == 0xfd else 0x03] + [0xc0] * 7),
+                                    memo=bytes.fromhex(r[3]).decode() + "@%02X" % ofs, pageend=ofs))
     return out
 
 
@@ -766,7 +773,10 @@ def run(args):
             dist["sweep_reassembled"] += 1
         else:
             sweep_bad.append(opname)
-            spec_fail.append(dict(sig="sweep-%s-%02X-not-reassemblable" % (sc["cpu"], sc["op"]), tag="sweep:" + opname,
+            sig_sw = "sweep-%s-%02X-not-reassemblable" % (sc["cpu"], sc["op"])
+            if sc.get("pageend") in (0xfe, 0xff) and sc["cpu"] == "4004" and (sc["op"] >> 4) == 1:
+                sig_sw = "jcn-forward-label-page-end-4004"    # recorded: code4004.c judges the forward label of a JCN at a page end by its first-pass value
+            spec_fail.append(dict(sig=sig_sw, tag="sweep:" + opname,
                                   why="opcode %s: dasl prints text that asl rejects or assembles to other bytes (%s)" % (opname, (r["err"] or kv.get("bad", ""))[-200:].strip()),
                                   image=sc["img"].hex(), start=sc["start"], dasl_stdout=r["stdout"]))
     # ---- 6800: instructions that do not fit into the image
